@@ -4,6 +4,7 @@ import FlVerif.Lemmas.Activation
 import FlVerif.Lemmas.ActivationLoops
 import FlVerif.Lemmas.ActivationLaws
 import FlVerif.Gen.Tables
+import FlVerif.Lemmas.CodeActivation
 
 /-! # C08 — activation methods trigger exactly the rules their definition selects
 
@@ -19,6 +20,88 @@ namespace C08
 open Spec.Activation Op.Activation
 
 variable {α : Type} [Field α] [LinearOrder α] [IsStrictOrderedRing α]
+
+/-! ## Tie A (code → model): the loops translated from the source are the loops of the model
+
+`Gen.Code.<Cls>_activate` is regenerated from the source of `<Cls>.activate` (`fuzzylite/activation.py`) on every run
+(`fv/pylean.py`).  Run on the rules of a block paired with their positions (`enum 0 rs`), it raises the exception class
+that `Op.Activation.activate` predicts, and otherwise leaves the rule states (`visited`, in visiting order) and makes the
+contributions (`fires`) that the model returns - for every rule list and every parameter. -/
+
+theorem code_general (rs : List (Rule Rat)) :
+    match Op.Activation.activate .general rs with
+    | .error e => Gen.Code.General_activate.run (enum 0 rs) {} = .error e.toPy
+    | .ok o => ∃ σ, Gen.Code.General_activate.run (enum 0 rs) {} = .ok σ ∧ σ.visited.map (·.2) = o.rules ∧
+        σ.fires = o.fires :=
+  Op.Activation.code_general rs
+
+theorem code_first (n : Nat) (t : X Rat) (rs : List (Rule Rat)) :
+    match Op.Activation.activate (.first n t) rs with
+    | .error e => Gen.Code.First_activate.run (enum 0 rs) n t {} = .error e.toPy
+    | .ok o => ∃ σ, Gen.Code.First_activate.run (enum 0 rs) n t {} = .ok σ ∧ σ.visited.map (·.2) = o.rules ∧
+        σ.fires = o.fires :=
+  Op.Activation.code_first n t rs
+
+/-- Last visits the rules in reverse: `visited` is the block in reverse order -/
+theorem code_last (n : Nat) (t : X Rat) (rs : List (Rule Rat)) :
+    match Op.Activation.activate (.last n t) rs with
+    | .error e => Gen.Code.Last_activate.run (enum 0 rs) n t {} = .error e.toPy
+    | .ok o => ∃ σ, Gen.Code.Last_activate.run (enum 0 rs) n t {} = .ok σ ∧ (σ.visited.map (·.2)).reverse = o.rules ∧
+        σ.fires = o.fires :=
+  Op.Activation.code_last n t rs
+
+/-- Highest: first loop with the heap of `(-degree, index)`, then the `while` loop (its fuel never runs out) -/
+theorem code_highest (n : Nat) (rs : List (Rule Rat)) :
+    match Op.Activation.activate (.highest n) rs with
+    | .error e => Gen.Code.Highest_activate.run (enum 0 rs) n {} = .error e.toPy
+    | .ok o => ∃ σ, Gen.Code.Highest_activate.run (enum 0 rs) n {} = .ok σ ∧ σ.visited.map (·.2) = o.rules ∧
+        σ.fires = o.fires :=
+  Op.Activation.code_highest n rs
+
+theorem code_lowest (n : Nat) (rs : List (Rule Rat)) :
+    match Op.Activation.activate (.lowest n) rs with
+    | .error e => Gen.Code.Lowest_activate.run (enum 0 rs) n {} = .error e.toPy
+    | .ok o => ∃ σ, Gen.Code.Lowest_activate.run (enum 0 rs) n {} = .ok σ ∧ σ.visited.map (·.2) = o.rules ∧
+        σ.fires = o.fires :=
+  Op.Activation.code_lowest n rs
+
+theorem code_proportional (rs : List (Rule Rat)) :
+    match Op.Activation.activate .proportional rs with
+    | .error e => Gen.Code.Proportional_activate.run (enum 0 rs) {} = .error e.toPy
+    | .ok o => ∃ σ, Gen.Code.Proportional_activate.run (enum 0 rs) {} = .ok σ ∧ σ.visited.map (·.2) = o.rules ∧
+        σ.fires = o.fires :=
+  Op.Activation.code_proportional rs
+
+theorem code_threshold (c : Comparator) (t : X Rat) (rs : List (Rule Rat)) :
+    match Op.Activation.activate (.threshold c t) rs with
+    | .error e => Gen.Code.Threshold_activate.run (enum 0 rs) c t {} = .error e.toPy
+    | .ok o => ∃ σ, Gen.Code.Threshold_activate.run (enum 0 rs) c t {} = .ok σ ∧ σ.visited.map (·.2) = o.rules ∧
+        σ.fires = o.fires :=
+  Op.Activation.code_threshold c t rs
+
+/-- all seven at once: the translated method that `m` names returns the rule states (in block order) and the
+    contributions of `Op.Activation.activate m`, or raises the same exception (`ValueError`) -/
+theorem code_activate (m : Method Rat) (rs : List (Rule Rat)) :
+    (match m with
+      | .general => (Gen.Code.General_activate.run (enum 0 rs) {}).map
+          (fun σ : Gen.Code.General_activate.S => (σ.visited.map (·.2), σ.fires))
+      | .first n t => (Gen.Code.First_activate.run (enum 0 rs) n t {}).map
+          (fun σ : Gen.Code.First_activate.S => (σ.visited.map (·.2), σ.fires))
+      | .last n t => (Gen.Code.Last_activate.run (enum 0 rs) n t {}).map
+          (fun σ : Gen.Code.Last_activate.S => ((σ.visited.map (·.2)).reverse, σ.fires))
+      | .highest n => (Gen.Code.Highest_activate.run (enum 0 rs) n {}).map
+          (fun σ : Gen.Code.Highest_activate.S => (σ.visited.map (·.2), σ.fires))
+      | .lowest n => (Gen.Code.Lowest_activate.run (enum 0 rs) n {}).map
+          (fun σ : Gen.Code.Lowest_activate.S => (σ.visited.map (·.2), σ.fires))
+      | .proportional => (Gen.Code.Proportional_activate.run (enum 0 rs) {}).map
+          (fun σ : Gen.Code.Proportional_activate.S => (σ.visited.map (·.2), σ.fires))
+      | .threshold c t => (Gen.Code.Threshold_activate.run (enum 0 rs) c t {}).map
+          (fun σ : Gen.Code.Threshold_activate.S => (σ.visited.map (·.2), σ.fires))
+      : Py.M (List (Rule Rat) × List (Fire Rat)))
+    = match Op.Activation.activate m rs with
+      | .error e => .error e.toPy
+      | .ok o => .ok (o.rules, o.fires) :=
+  Op.Activation.code_activate m rs
 
 /-! ## the loops compute the specified selection -/
 
